@@ -41,14 +41,13 @@ Theorem C09_euler_range : forall r a b,
 Proof. exact euler_range. Qed.
 
 (* ---------------------------------------------------------------- the 12 tabulated rows (regenerated) *)
-Theorem C09_rows_orthonormal : forall b s, valid_sel s -> Rabs (eps_of (euler_row b s)) <= eps_max.
-Proof. exact rows_orthonormal. Qed.
+(* |sin^2 + cos^2 - 1| <= 1e-10 for each tabulated row, and the computed vector is never zero *)
+Theorem C09_rows_orthonormal : forall b s, valid_sel s ->
+  Rabs (eps_of (euler_row b s)) <= eps_max /\ forall a d, 0 < norm2 (euler_xyz (euler_row b s) a d).
+Proof. exact rows_orthonormal_nonzero. Qed.
 
 Theorem C09_rows_inverse_pairs : forall b s, valid_sel s -> euler_row b (inv_select s) = row_inv (euler_row b s).
 Proof. exact rows_inverse_pairs. Qed.
-
-Theorem C09_rows_nonzero : forall b s a d, valid_sel s -> 0 < norm2 (euler_xyz (euler_row b s) a d).
-Proof. exact rows_nonzero. Qed.
 
 (* every conversion followed by its inverse returns every point (poles included) to within 1e-5 deg *)
 Theorem C09_conversions_invertible : forall b s a d, valid_sel s ->
@@ -70,12 +69,10 @@ Theorem C09_angle_triangle : forall a b c, is_unit a -> is_unit b -> is_unit c -
 Proof. exact angle_triangle. Qed.
 
 (* on the rotated vectors: cosines change by at most 1e-10, squared chords by a factor within 1 +- 1e-10 *)
-Theorem C09_conversions_near_isometry : forall b s, valid_sel s -> isometry_to eps_max (euler_lin (euler_row b s)).
-Proof. exact rows_near_isometry. Qed.
-
-Theorem C09_conversions_preserve_chords : forall b s u v, valid_sel s ->
-  Rabs (chord2 (euler_lin (euler_row b s) u) (euler_lin (euler_row b s) v) - chord2 u v) <= eps_max * chord2 u v.
-Proof. exact rows_chord_preserved. Qed.
+Theorem C09_conversions_near_isometry : forall b s, valid_sel s ->
+  isometry_to eps_max (euler_lin (euler_row b s)) /\
+  forall u v, Rabs (chord2 (euler_lin (euler_row b s) u) (euler_lin (euler_row b s) v) - chord2 u v) <= eps_max * chord2 u v.
+Proof. exact rows_vectors. Qed.
 
 (* J2000: agreement with the exact rotation defined by the documented pole and node constants *)
 Theorem C09_documented_rows_are_rotations : forall s,
